@@ -78,6 +78,7 @@ def run(ctx: Ctx) -> Result:
                                    'how_to_run': './check C19 --replay <this file>'})
     def apply(hist):
         """runs the history on the implementation, checking the set specification after every step; returns False on the first problem"""
+        shared_ts = {'timestamp': 1700000000, 'sigfield1': b'abc'}; shared_plain = {'sigfield1': b'abc', 'note': 'n'}
         restore()
         spec_pl = {s: [] for s in scopes}; spec_ct = {}; spec_if = set(snap['ifaces']); spec_al = {}
         for idx, h in enumerate(hist):
@@ -116,6 +117,19 @@ def run(ctx: Ctx) -> Result:
                     want = spec_pl['signature_extensions'] + (['cA', 'cB'] if all(c in spec_ct for c in (b'A', b'B')) else [])
                     if log != want: viol(hist, idx, f'probe run consults exactly {want}', list(log)); return False
                     if repr((caller_cache, caller_contracts, caller_plugins)) != repr(snaps): viol(hist, idx, "caller's dicts unchanged", (caller_cache, caller_contracts, caller_plugins)); return False
+                    # the same caller dict reused for several runs (with and without its own 'timestamp'): a run that writes to its
+                    # cache must neither change the caller's dict nor be visible to the next run
+                    for d in (shared_ts, shared_plain):
+                        snap_d = copy.deepcopy(d)
+                        outs_ = []
+                        for scr in (b'\x0b\x01k', b'\x02\x2a\x09\x01k\x01\x02\x01\x06\x30', b'\x0b\x01k'):      # @#k ; @= k [ x2a ] push x01 pop0 return ; @#k
+                            try:
+                                _, st_, _ = F.run_script(scr, d)
+                                outs_.append([bytes(x) for x in st_.list()])
+                            except BaseException as e:
+                                outs_.append('ERR:' + type(e).__name__)
+                        if repr(d) != repr(snap_d): viol(hist, idx, f"caller's cache dict unchanged by run_script: {snap_d}", d); return False
+                        if outs_[0] != outs_[2] or outs_[0] != [b'\x00']: viol(hist, idx, 'a reader run sees an empty cache key whatever ran before: [00]', outs_); return False
                 elif op == 'compile':
                     got = fresh_compile(h[1])
                     if got != baseline[h[1]]: viol(hist, idx, f'compile_script({h[1]!r}) = {baseline[h[1]]} (as in a fresh process)', got); return False
